@@ -255,9 +255,13 @@ func (e *Engine) evCall(c *ast.CallExpr, st *State) []Value {
 				if v, ok := st.vars[e.trackFlag(name)]; ok {
 					return []Value{v}
 				}
+				if e.calleePost > 0 {
+					// inside a callee's postcondition the callee's own ghost calls are unknown to the caller
+					return []Value{e.calleeGhost("called:"+name, types.Typ[types.Bool])}
+				}
 				return []Value{{"false", types.Typ[types.Bool]}}
 			}
-		case "lastInt", "lastArgInt":
+		case "lastInt", "lastArgInt", "lastArgStr", "lastArgBool":
 			// lastInt("f"): first result of the latest call to f; lastArgInt("f", i): its i-th argument (`opt track`)
 			if e.isSpecHelper(id) {
 				tv := e.pk.Info.Types[c.Args[0]]
@@ -266,7 +270,7 @@ func (e *Engine) evCall(c *ast.CallExpr, st *State) []Value {
 				}
 				name := strings.Trim(tv.Value.ExactString(), "\"")
 				key := e.trackKey(name, 0)
-				if id.Name == "lastArgInt" {
+				if id.Name != "lastInt" {
 					iv := e.pk.Info.Types[c.Args[1]]
 					n := 0
 					if iv.Value != nil {
@@ -275,6 +279,9 @@ func (e *Engine) evCall(c *ast.CallExpr, st *State) []Value {
 					key = e.trackKey(name+":arg", n)
 				}
 				v, ok := st.vars[key]
+				if !ok && e.calleePost > 0 {
+					return []Value{e.calleeGhost(key.name, e.typeOf(c))}
+				}
 				if !ok {
 					e.fail(c.Pos(), "%s(%q): no tracked call on this path (is the function listed in `opt track`?)", id.Name, name)
 				}
@@ -626,6 +633,16 @@ func (e *Engine) callStatic(c *ast.CallExpr, fn *types.Func, sig *types.Signatur
 		}
 	}
 	return res
+}
+
+// calleeGhost: one unknown value per ghost name for the postconditions of one call (an existential witness).
+func (e *Engine) calleeGhost(name string, t types.Type) Value {
+	if v, ok := e.calleeGhosts[name]; ok {
+		return v
+	}
+	v := e.havocValue("cghost", t)
+	e.calleeGhosts[name] = v
+	return v
 }
 
 func (e *Engine) trackFlag(name string) *synth {
@@ -1024,6 +1041,8 @@ func (e *Engine) applyContract(c *ast.CallExpr, fn *types.Func, ct *Contract, pk
 			}
 		}
 	}
+	e.calleePost++
+	e.calleeGhosts = map[string]Value{}
 	for _, en := range ct.Ensures {
 		if e.bound > 0 {
 			// under a binder the facts would mention bound variables; the application alone is returned
@@ -1034,6 +1053,7 @@ func (e *Engine) applyContract(c *ast.CallExpr, fn *types.Func, ct *Contract, pk
 		e.spec--
 		e.assume(st.pc, v.T)
 	}
+	e.calleePost--
 	e.entry = savedEntry
 	return res
 }
